@@ -291,3 +291,15 @@ mod tests {
     }
 
 }
+
+#[cfg(feature = "verif")]
+impl<SlotType:          Debug + Send + Sync,
+     OgreAllocatorType: BoundedOgreAllocator<SlotType> + crate::verif::VerifState,
+     const BUFFER_SIZE: usize>
+crate::verif::VerifState for
+AtomicZeroCopy<SlotType, OgreAllocatorType, BUFFER_SIZE> {
+    fn verif_state(&self, out: &mut Vec<u64>) {
+        self.allocator.verif_state(out);
+        self.queue.verif_state(out);
+    }
+}
